@@ -44,6 +44,9 @@ class LRUCache(object):
             self._cache.move_to_end(key)
             return self._cache[key]
 
+    def remove(self, key: PyHash) -> None:
+        self._cache.pop(key, None)
+
     def put(self, key: PyHash, value: Any) -> None:
         self._cache[key] = Entry(value)
         self._cache.move_to_end(key)
@@ -97,6 +100,8 @@ class LRUCacheStore(Store):
         """
         _logger.debug(f"store_blob key {key}")
         self._store.store_blob(key, blob, codec)
+        # The cached object (if any) may not reflect the new content.
+        self._cache.remove(key)
 
     def sync_paths(self, paths: "OrderedDict[DDSPath, PyHash]") -> None:
         _logger.debug(f"sync_paths {paths}")
